@@ -146,7 +146,7 @@ class P(Property):
         role = rng.choice(['s', 'c'])
         n = rng.choice([1, 2, 2, 3, 3, 4, 4])
         reqs, nev, stops, zs = [], [], [], []
-        modes = [rng.choice('nes') if ext else 'n' for _ in range(n)]
+        modes = [rng.choice('nesp') if ext else 'n' for _ in range(n)]
         for i in range(n):
             evs, _ = self.healthy_events(rng, i)
             kind = rng.choice(['ok', 'ok', 'ok', 'reset', 'reset', 'stop', 'malformed', 'oversized', 'finfirst', 'conn',
@@ -159,7 +159,7 @@ class P(Property):
             elif kind == 'stop':
                 stop = str(any_code(rng))
             elif kind == 'malformed':
-                evs = ['hm%d' % rng.randrange(3)] + (evs[1:] if rng.random() < 0.5 else [])
+                evs = ['hm%d' % rng.randrange(7)] + (evs[1:] if rng.random() < 0.5 else [])
             elif kind == 'oversized':
                 evs = ['ho'] + (evs[1:] if rng.random() < 0.5 else [])
             elif kind in ('trlbad', 'trlbig'):
@@ -307,8 +307,8 @@ class P(Property):
         _, _api, scope, code, variant = r
         if scope != 's' or variant != a[1] or code != a[2]:
             return False
-        aborts = '.'.join(c for c in o['c'].split('.') if c not in ('F', '-')) or '-'
-        if aborts != a[3]:
+        # the tabled reset / stop_sending calls were made (order and extra teardown calls are not the property's business)
+        if not set(x for x in a[3].split('.') if x != '-') <= set(o['c'].split('.')):
             return False
         upto = '' if a[4] == '-' else a[4]
         if not upto.startswith(data):
@@ -352,8 +352,9 @@ class P(Property):
         halves = o['res'].split('&')
         if 'run' in halves:
             return not strict
-        aborts = '.'.join(c for c in o['c'].split('.') if c not in ('F', '-')) or '-'
-        want_aborts = '-'
+        seen = set(o['c'].split('.'))
+        if 'c' in o.get('l', ''):
+            return False                      # a later call on the faulted request escalated to the connection
         for k, h in enumerate(halves):
             if h == '-':
                 continue                      # the send half was never created
@@ -364,15 +365,10 @@ class P(Property):
             r = h.split(':')
             if r[0] != 'err' or len(r) != 5 or r[2] != 's':
                 return False
-            m = [a for a in errs if a[1] == r[4] and a[2] == r[3] and ('' if a[4] == '-' else a[4]).startswith(data)]
+            m = [a for a in errs if a[1] == r[4] and a[2] == r[3] and ('' if a[4] == '-' else a[4]).startswith(data)
+                 and set(x for x in a[3].split('.') if x != '-') <= seen]
             if not m:
                 return False
-            if any(a[3] != '-' for a in m) and want_aborts == '-':
-                want_aborts = [a[3] for a in m if a[3] != '-'][0] if all(a[3] != '-' for a in m) else want_aborts
-                if want_aborts == '-' and aborts != '-':
-                    want_aborts = aborts if aborts in [a[3] for a in m] else want_aborts
-        if aborts != want_aborts:
-            return False
         if all(h == 'ok' for h in halves):
             a = oks[0]
             return o['d'] == a[1] and o['t'] == a[2] and o['c'] == 'F' and o['tr'] == a[3]
